@@ -84,4 +84,17 @@ def lruWalk (ttl : Int) (now : Nat) (l : Lru) : Lru := (l.reverse.dropWhile (exp
 /-- … and which entries were closed -/
 def lruClosed (ttl : Int) (now : Nat) (l : Lru) : List Nat := (l.reverse.takeWhile (expired ttl now)).map (·.file)
 
+/-- one iteration of `ReleaseReaders`: `cache.Get(r.FileName())` — found ⇒ `MoveToFront` — then
+`entry.release()` (ref − 1; `last` is NOT touched, only `retain()` sets it); not found ⇒ nothing -/
+def lruRelease1 (l : Lru) (f : Nat) : Lru :=
+  match l.find? (fun e => e.file == f) with
+  | some e => { e with ref := e.ref - 1 } :: l.filter (fun x => x.file != f)
+  | none => l
+
+/-- `storeCache.ReleaseReaders(readers)`: the loop over the readers, in order, in one critical section -/
+def lruRelease (l : Lru) (fs : List Nat) : Lru := fs.foldl lruRelease1 l
+
+/-- the LRU order: file names, most recently used first -/
+def lruOrder (l : Lru) : List Nat := l.map (·.file)
+
 end LinVerif.TableCache
